@@ -227,10 +227,18 @@ func New(sc *Scenario) (*World, error) {
 		}
 		s.Inactive[x] = true
 	}
+	if sc.Extra["tso_yield"] == 0 {
+		// the points inside tso.Commit (between its loads and its compare-and-swaps) are reached by every
+		// commit of the sequencer: only the classes about concurrent SetCurrentRevision calls switch them on
+		s.Inactive["tso.commit"] = true
+	}
 	s.Forced = sc.Forced
 	for k, v := range sc.Extra {
 		if strings.HasPrefix(k, "stall:") {
 			s.StallSites[k[6:]] = uint64(v)
+		}
+		if strings.HasPrefix(k, "stallrand:") {
+			s.StallRand[k[10:]] = uint64(v)
 		}
 	}
 	if os.Getenv("VERIF_TRACE") != "" {
@@ -244,7 +252,7 @@ func New(sc *Scenario) (*World, error) {
 		return nil, err
 	}
 	w.KV = simkv.NewWorld(s, inner, lazy)
-	if sc.Extra["tikv_get_fault"] > 0 || sc.Extra["tikv_scan_fault"] > 0 {
+	if (sc.Extra["tikv_get_fault"] > 0 || sc.Extra["tikv_scan_fault"] > 0) && sc.Extra["tikv_fault_armed_by_op"] == 0 {
 		w.TiKVScanFaultArmed = true
 	}
 	for _, f := range sc.Plan {
